@@ -21,9 +21,11 @@ RULE = ('one run = one seeded program as in C11 extended by savepoints and '
 BUDGET = {'quick': {'runs': 12000, 'wall': 300, 'chunk': 25},
           'thorough': {'runs': 900000, 'wall': 1200, 'chunk': 200}}
 ASSUMPTIONS = [
-    'the object cache is large enough that no new object saved by a '
-    'savepoint is evicted (an evicted one keeps its state only in the '
-    'temporary store and cannot keep it when it is un-added)',
+    'four runs in five use an object cache large enough that nothing is '
+    'evicted inside a transaction; the fifth uses cache_size 1 or 3 (the '
+    'clean-up at a savepoint then evicts objects, also new ones it has '
+    'just saved) and half of those do not look at the objects right '
+    'after a savepoint (looking would re-activate them)',
     'honest scope: this property has no schedule or crash dimension; what '
     'is sampled is the program space, the commit-failure point and the '
     'second party\'s view (DESIGN section 6, C12)',
